@@ -13,17 +13,17 @@ CHECKS = {
          'Trusted: the reference interpreter (harness/src/refvm.rs), blake3, ed25519-consensus; shifts by >= 256 are recorded as implementation-defined (amount reduced mod 256). Programs longer than the bound, heaps other than the three used, and operands outside the boundary set are not covered. The hook only re-exports the Executor type.',
          'DESIGN.md §4 C10, appendix C'),
  'C11': ('E2-vm-lockstep',
-         'exhaustive enumeration of all programs up to length 4 (thorough 5) over a 28-symbol control-flow alphabet and loop towers (oracle steps <= weight, weight == reference weight), loops followed by tails that make the program longer than 65536 instructions, all loop-header programs with n <= 6 (thorough 8) headers over {0,1,2}x{0,1,n,65535} plus uniform families up to n = 2000 and 0xb0 byte strings up to 100 kB (oracle: weighing work counter <= n^3+64, terminates), and data-doubling / deep-nesting families x every consuming opcode (incl. short appends in either operand order) in child processes (oracle: peak heap growth <= 4096*(weight+64), terminates within the deadline)',
+         'exhaustive enumeration of all programs up to length 4 (thorough 5) over a 28-symbol control-flow alphabet and loop towers (oracle steps <= weight, weight == reference weight), loops followed by tails that make the program longer than 65536 instructions, a 3000-fold loop over every operand-free instruction, all loop-header programs with n <= 6 (thorough 8) headers over {0,1,2}x{0,1,n,65535} plus uniform families up to n = 2000 and 0xb0 byte strings up to 100 kB (oracle: weighing work counter <= n^3+64, terminates), and data-doubling / deep-nesting families x every consuming opcode (incl. short appends in either operand order) in child processes (oracle: peak heap growth <= 4096*(weight+64), terminates within the deadline)',
          'Bounded exhaustive exploration of the real interpreter and weight calculator: instruction counts from single-stepping the real Executor (H1) against Covenant::weight(); deterministic weighing work from the H2 counter; memory from a counting allocator in child processes with a 2 MiB stack and an address-space limit. Right level: cost violations need specific program shapes (nested loops, overrunning bodies, doubling followed by a materialising opcode), which the families enumerate completely within the stated bounds.',
          'Trusted: the harness allocator accounting; the per-child deadline (10 s quick / 30 s thorough) as the only time judgement; "polynomial" is judged on n <= 2000 headers and k <= 26 doublings. Crashes (stack overflow) are attributed to C09, not C11.',
          'DESIGN.md §4 C11'),
  'C12': ('E2-bytecode-enumeration',
-         'exhaustive enumeration of all byte strings <= 3 bytes (thorough: + all 4-byte strings with an operand-taking first opcode), all opcode x operand-length classes and all instruction lists <= 2 (thorough <= 3) over boundary representatives, and structured long strings (the standard covenants with tails, programs of 65535..131073 instructions), each against a reference codec',
+         'exhaustive enumeration of all byte strings <= 3 bytes (thorough: + all 4-byte strings with an operand-taking first opcode), all opcode x operand-length classes and all instruction lists <= 2 (thorough <= 3) over boundary representatives, and structured long strings (the standard covenants with tails, programs of 65535..131073 instructions), each against a reference codec, incl. equality of a decoded program with a fresh decode / rebuild of itself after hash()',
          'Bounded exhaustive enumeration of the real codec (Covenant::from_bytes/to_bytes/from_ops/to_ops/hash/weight, OpCode::encode) against an independent table-driven reference codec: every byte string up to the bound is decoded by both; accepted strings must re-encode to themselves; every representable instruction list must round-trip. This is the right level because the property is a statement about a finite-state codec whose every branch is reached by strings of <= 3 bytes plus per-opcode operand-length classes.',
          'Trusted: the reference codec table in harness/src/refvm.rs (transcribed from DESIGN.md appendix C), blake3, the harness. Strings longer than the bound are covered only through the per-opcode operand-length classes.',
          'DESIGN.md §4 C12'),
  'C17': ('E3-parameter-grid',
-         'exhaustive sweep of the finite grid delta in [-128,127] x fee multipliers {0..300 (thorough 0..4096)} u {2^k-1,2^k,2^k+1 : 8<=k<=70} x {before, at, after the TIP-901 switch on mainnet/testnet/custom} through the real next_unsealed().seal(action) on fabricated states, plus 300-block runs of extreme deltas',
+         'exhaustive sweep of the finite grid delta in [-128,127] x fee multipliers {0..300 (thorough 0..4096)} u {2^k-1,2^k,2^k+1 : 8<=k<=70} x {before, at, after the TIP-901 switch on mainnet/testnet/custom, with full and with empty fee pools} through the real next_unsealed().seal(action) on fabricated states, plus 300-block runs of extreme deltas',
          'Bounded exhaustive sweep of the real seal path over the whole delta range and a boundary-dense set of multipliers on states fabricated with SealedState::from_block at the relevant heights; every result is compared with the specified step computed in arbitrary-precision arithmetic; a panic is a violation. Right level: the behaviour is a pure function of (multiplier, delta, TIP-901 flag) and its failure modes sit at arithmetic boundaries, which the grid enumerates.',
          'Trusted: fabricated parent states (from_block with a synthetic parent header) behave like honestly reached states for the fee-multiplier path; BigInt arithmetic of the num crate. Multipliers above 2^70 are outside the bound.',
          'DESIGN.md §4 C17'),
@@ -38,13 +38,13 @@ E1_NOTE = 'Trusted: the reference model harness/src/refstf.rs (batch rule, settl
 def e1(tech, text, ref):
     return ('E1-state-graph-search', tech, text, E1_NOTE, ref)
 CHECKS.update({
- 'C01': e1('explicit-state breadth-first search over the real apply_tx_batch / seal / next_unsealed (one transition = one real call) with de-duplication on the header-based state key, up to the depth bound, over alphabets containing every issuance path (faucet, new token, swap, deposit, withdrawal, every pool-name spelling, other kinds carrying pool names, proposer actions), plus histories across the rule-switch heights (end of the legacy deposit window 978392, TIP-906/902/901 activations) real-proof DoscMints before and after a speed record, three further genesis configurations (initial coin in SYM / ERG / 2^100 MEL, non-empty initial fee pool, genesis stakes), far heights where the subsidy runs out (21,950,000), amounts near 2^110 at lopsided prices, 255-300 requests of the maximum coin value against one pool in one block, and hostile members (input-less token mints, second spends of recently spent coins) in replay histories; the own new token of a transaction counts as issuance only if the token did not exist before; oracle on every transition: per-denomination supply (raw coin tree + pool tree + fee pool + tips) after <= before + issuance allowed by the statement',
+ 'C01': e1('explicit-state breadth-first search over the real apply_tx_batch / seal / next_unsealed (one transition = one real call) with de-duplication on the header-based state key, up to the depth bound, over alphabets containing every issuance path (faucet, new token, swap, deposit, withdrawal, every pool-name spelling, other kinds carrying pool names, proposer actions), plus histories across the rule-switch heights (end of the legacy deposit window 978392, TIP-906/902/901 activations) real-proof DoscMints before and after a speed record, three further genesis configurations (initial coin in SYM / ERG / 2^100 MEL, non-empty initial fee pool, genesis stakes), far heights where the subsidy runs out (21,950,000), amounts near 2^110 at lopsided prices, 255-300 requests of the maximum coin value against one pool in one block, withdrawals of liquidity tokens the built-in pools never issued, the two standard genesis configurations of the repository (empty-block histories), and hostile members (input-less token mints, second spends of recently spent coins) in replay histories; the own new token of a transaction counts as issuance only if the token did not exist before; oracle on every transition: per-denomination supply (raw coin tree + pool tree + fee pool + tips) after <= before + issuance allowed by the statement',
     'Bounded exhaustive exploration of histories of the real state-transition function: every action sequence up to the depth bound over a finite, state-dependent alphabet is executed on the real code, and conservation of every denomination is evaluated on the raw trees of the real state after every accepted batch and every seal. Right level: a conservation violation needs a particular combination of transactions (ordering, pool-name spelling, kind, several requests per block), which small-scope exhaustive search produces and examples do not.',
     'DESIGN.md §4 C01'),
- 'C02': e1('explicit-state breadth-first search over the real state-transition function in lock-step with a map-based reference model: all action sequences up to the depth bound over single transactions and ordered batches (dependent pairs in both orders, three-step chains in the worst order, conflicting pairs, repeated transactions, adversarial members incl. second spends of coins spent earlier in the block or history, input-less transactions, an unbalanced transaction that also issues a token), plus a stake followed by spends of its outputs in every input position; oracle: real accepts => every stated condition holds in the model; on accept the raw coin tree equals the model entry for entry; on reject header and tips are unchanged',
+ 'C02': e1('explicit-state breadth-first search over the real state-transition function in lock-step with a map-based reference model: all action sequences up to the depth bound over single transactions and ordered batches (dependent pairs in both orders, three-step chains in the worst order, conflicting pairs, repeated transactions, adversarial members incl. second spends of coins spent earlier in the block or history, input-less transactions, an unbalanced transaction that also issues a token), plus a stake followed by spends of its outputs in every input position, balanced transactions whose fee or output exceeds 2^120, and a faucet consuming a coin without its covenant; oracle: real accepts => every stated condition holds in the model; on accept the raw coin tree equals the model entry for entry; on reject header and tips are unchanged',
     'Bounded exhaustive lock-step exploration: every transition calls the real apply_tx_batch and the reference batch rule on the same input; acceptance is compared in the direction the statement gives (necessity), the resulting coin set exactly, and rejected batches must leave the state key unchanged.',
     'DESIGN.md §4 C02'),
- 'C15': e1('explicit-state breadth-first search over blocks mixing swap / deposit / withdrawal requests (several per pool, both sides, existing and brand-new pools), every pool-name spelling and every other transaction kind carrying a pool name, requests whose coins were spent again in the same block, near-requests (deposit with its sides exchanged, withdrawal with change, two coins of one denomination under an equal-sided name), amounts near 2^110, and histories across the rule-switch heights; oracles at every seal: outputs of non-requests unchanged; coins and pools equal the reference settlement (single price, pro-rata floor, exact reserve movement); deposit shares <= liquidity minted; reserve product non-decreasing',
+ 'C15': e1('explicit-state breadth-first search over blocks mixing swap / deposit / withdrawal requests (several per pool, both sides, existing and brand-new pools), every pool-name spelling and every other transaction kind carrying a pool name, requests whose coins were spent again in the same block, near-requests (deposit with its sides exchanged, withdrawal with change, two coins of one denomination under an equal-sided name), a user pool emptied by several withdrawals of one block, amounts near 2^110, and histories across the rule-switch heights; oracles at every seal: outputs of non-requests unchanged; coins and pools equal the reference settlement (single price, pro-rata floor, exact reserve movement); deposit shares <= liquidity minted; reserve product non-decreasing',
     'Bounded exhaustive exploration of blocks and multi-block histories through the real seal, compared with a reference settlement written from the statement plus statement-level invariants evaluated on the real trees.',
     'DESIGN.md §4 C15'),
  'C16': e1('explicit-state breadth-first search over liquidity histories (mint a token, create its pool, deposit twice in a block, swap, withdraw everything) to depth 8 (thorough 11), two pools with three requests per block to depth 10, the Testnet ERG/SYM pool before TIP-902, a custom pool whose liquidity is wholly user-held, withdrawals of liquidity tokens a built-in pool never issued, near-requests among genuine ones, deposits of 2^110, and three further genesis configurations; state invariant after every seal: built-in pools exist with non-zero reserves, sum of liquidity-token coins <= pool.liqs for every pool',
@@ -62,15 +62,15 @@ CHECKS.update({
     'Trusted: header equality as state equality (C07). Limits: interleavings inside one validation closure are not enumerated (rayon, parking_lot and dashmap cannot be intercepted by loom/shuttle; closures only read shared immutable data) - pool-size variation is free-running, i.e. sampling of schedules, and is labelled so in the evidence; which error a rejected batch returns is not compared.',
     'DESIGN.md §4 C03, §5'),
  'C06': ('E3-mutation-grid',
-    'for 14 (thorough 60) parents within depth 3 (thorough 6) of histories on Custom02, Custom08 (dense transaction tree) and Testnet (thorough: + fees, Mainnet), every child block built from <= 2 (thorough 3) alphabet transactions (incl. chains, a stake with a spend of the staked coin, and blocks assembled by sequential apply_tx) with and without a proposer action (incl. the strongest votes, delta 127 and -128), a 150-transaction honest block over rebuilt transaction sets, honest blocks of faucets whose fees add up beyond the maximum coin value, and every single mutation of it: each of the 11 header fields replaced by two other values, each transaction removed, each alphabet transaction (valid and invalid) added, each transaction replaced (same hash_nosigs with other signatures; other output data), proposer action None<->Some, delta+-1, other destination; oracle computed without apply_block: Ok iff batch accepted and sealed header == block header, returned header == block header',
+    'for 14 (thorough 60) parents within depth 3 (thorough 6) of histories on Custom02, Custom08 (dense transaction tree) and Testnet (thorough: + fees, Mainnet), every child block built from <= 2 (thorough 3) alphabet transactions (incl. chains, a stake with a spend of the staked coin, and blocks assembled by sequential apply_tx) with and without a proposer action (incl. the strongest votes, delta 127 and -128), a 150-transaction honest block over rebuilt transaction sets, honest blocks of faucets whose fees add up beyond the maximum coin value, blocks built by a proposer that also tried invalid, duplicate and late-failing batches, and every single mutation of it: each of the 11 header fields replaced by two other values, each transaction removed, each alphabet transaction (valid and invalid) added, each transaction replaced (same hash_nosigs with other signatures; other output data), proposer action None<->Some, delta+-1, other destination; oracle computed without apply_block: Ok iff batch accepted and sealed header == block header, returned header == block header',
     'Bounded exhaustive enumeration of (parent, block, single mutation) triples through the real apply_block, against the first sentence of the statement evaluated through next_unsealed / apply_tx_batch / seal.',
     'Trusted: next_unsealed, apply_tx_batch and seal as the definition of the correct successor (their own correctness is C01-C05, C15-C20); HashSet iteration order is C03 subject.',
     'DESIGN.md §4 C06'),
- 'C07': e1('explicit-state breadth-first search over UTXO and pool histories on Custom02, Custom08 (dense transaction commitment) and Testnet across the TIP-906 activation (also with pool requests inside the legacy deposit window), Mainnet across 830000 with the replayable grandfathered faucet, transfers carrying empty signature slots on Custom08 (the transaction commitment is checked on open states too, before states are merged), three further genesis configurations, with an oracle on every generated successor (before de-duplication): height/previous/network linkage and history contents on the honest segment; coin, pool and stake roots recomputed from the model content in a fresh tree in ascending and descending key order; transaction commitment rebuilt externally under both schemes; two-directional maps content digest <-> root / header hash over the whole explored set (history independence and sensitivity); Merkle proofs of presence and absence for coins, pools and history entries verified against the header roots and refuted for other values; transaction positions and dense proofs; scalar/stake sensitivity through from_block pairs',
+ 'C07': e1('explicit-state breadth-first search over UTXO and pool histories on Custom02, Custom08 (dense transaction commitment) and Testnet across the TIP-906 activation (also with pool requests inside the legacy deposit window), Mainnet across 830000 with the replayable grandfathered faucet, transfers carrying empty signature slots on Custom08 (the transaction commitment is checked on open states too, before states are merged), a user pool that is emptied, public accessors (pool, coin, stake) against the committed entries, the TIP-911 stake view of independently built stake sets, three further genesis configurations, with an oracle on every generated successor (before de-duplication): height/previous/network linkage and history contents on the honest segment; coin, pool and stake roots recomputed from the model content in a fresh tree in ascending and descending key order; transaction commitment rebuilt externally under both schemes; two-directional maps content digest <-> root / header hash over the whole explored set (history independence and sensitivity); Merkle proofs of presence and absence for coins, pools and history entries verified against the header roots and refuted for other values; transaction positions and dense proofs; scalar/stake sensitivity through from_block pairs',
     'Bounded exhaustive exploration with commitment oracles evaluated on every generated state, including the cross-path bijection between model content and commitments.',
     'DESIGN.md §4 C07'),
  'C08': ('E1-product-search',
-    'product search: every sealed state within d1 = 5 (thorough 6) of scenarios on Custom02 (with and without fees), Custom08, Testnet across the 499->500 activation and Custom02 with stakes at the last block of epochs 0 and 1 is a restart point (with/without proposer action, with/without pending tips); plus a testnet chain with a user-created pool reached by ~490 real blocks shortly before TIP-902; the pair (original, from_block(to_block)) is driven in lock-step through every continuation of depth d2 = 4 (thorough 5) including one nested restart; oracle: same accept/reject, same header and same tips at every step; a panic of the rebuilt lineage alone is a divergence',
+    'product search: every sealed state within d1 = 5 (thorough 6) of scenarios on Custom02 (with and without fees), Custom08, Testnet across the 499->500 activation and Custom02 with stakes at the last block of epochs 0 and 1 is a restart point (with/without proposer action, with/without pending tips); plus a testnet chain with a user-created pool reached by ~490 real blocks shortly before TIP-902; the pair (original, from_block(to_block)) is driven in lock-step through every continuation of depth d2 = 4 (thorough 5) including one nested restart; oracle: same accept/reject, same header and same tips at every step; a panic of the rebuilt lineage alone is a divergence; plus twelve-block continuations of empty blocks under three proposer-action patterns after restarts at four points of every root',
     'Bounded exhaustive exploration of (crash point x continuation): all restart points within the first bound, all continuations within the second, on the real to_block / from_block / next_unsealed / apply_tx_batch / seal.',
     'Trusted: the content-addressed store survives the restart (same Database); header + tips equality as behavioural equality within the continuation bound.',
     'DESIGN.md §4 C08'),
@@ -78,12 +78,12 @@ CHECKS.update({
 
 CHECKS.update({
  'C04': ('E3-spend-shapes',
-    'exhaustive enumeration of spend shapes: 24 covenant families (always-true/false, a heap-writing and a heap-reading covenant, a covenant failing inside a loop, a 17-bit heap address, nested-loop counters, four undecodable shapes, readers of the fee pool / pool root / coin root of the previous header, legacy and new signature, hash-lock, time-lock, index-bound, value-bound, undecodable, denomination / parent-index / additional-data readers, failing) x every assignment to 1, 2 and 3 input positions (same family twice uses its two coins) x covenant list {complete, missing first/last, extra, wrong bytes of the same length} x signatures {valid, bit-flipped, wrong key, wrong slot, signed before the data changed, none} x data {preimage, wrong} x kinds {Normal, Faucet, Swap, LiqDeposit, LiqWithdraw}, at height 1 (same block as funding) and height 2, plus height-0 spends of the genesis coin and every program of length <= 3 (thorough 4) over an 18-symbol environment-reading alphabet; oracle per input from the reference VM and melvm on (transaction, own environment): apply_tx accepts iff every input covenant is present, decodable and truthy',
+    'exhaustive enumeration of spend shapes: 24 covenant families (always-true/false, a heap-writing and a heap-reading covenant, a covenant failing inside a loop, a 17-bit heap address, a branch on a byte string, nested-loop counters, four undecodable shapes, readers of the fee pool / pool root / coin root of the previous header, legacy and new signature, hash-lock, time-lock, index-bound, value-bound, undecodable, denomination / parent-index / additional-data readers, failing) x every assignment to 1, 2 and 3 input positions (same family twice uses its two coins) x covenant list {complete, missing first/last, extra, wrong bytes of the same length} x signatures {valid, bit-flipped, wrong key, wrong slot, signed before the data changed, none} x data {preimage, wrong} x kinds {Normal, Faucet, Swap, LiqDeposit, LiqWithdraw}, at height 1 (same block as funding) and height 2, plus height-0 spends of the genesis coin and every program of length <= 3 (thorough 4) over an 18-symbol environment-reading alphabet; oracle per input from the reference VM and melvm on (transaction, own environment): apply_tx accepts iff every input covenant is present, decodable and truthy',
     'Bounded exhaustive enumeration through the real apply_tx with an oracle that does not go through validate_tx_scripts: the expected verdict is computed input by input on that input own spending environment; necessity and sufficiency are both checked because every other acceptance condition holds by construction.',
     'Trusted: the reference VM (cross-checked against melvm on every evaluation), Ed25519 with fixed keys. Covenants outside the families / alphabet and more than 3 inputs are not covered.',
     'DESIGN.md §4 C04'),
  'C05': ('E3-parameter-grid + E1-state-graph-search',
-    'exhaustive grid: fee multipliers {0,1,2,65535,65536,65537,10^6,2^40,2^64,2^90} x inputs {1,2,3} x outputs {0,1,2,3,255} x 7 extra covenants of weight 0..~10^8 x data length {0,1,100} x fee - minimum in {-1000,-2,-1,0,1,2,1000} (fee iterated to the fixed point fee = min(tx)), followed by padded-signature variants, 40 loop-shape covenants, one covenant per opcode (every exp k) and the two standard signature covenants with each operand replaced or followed by a heavy tail, oracle: accepted iff fee >= reference minimum, fee pool += minimum, tips += remainder; then breadth-first search over histories with over-paying transfers and seals with/without proposer actions at multipliers 0, 65536, 10^6 to depth 9/8/8 (thorough 11/10/10) (seal actions incl. a reward sent to the destruction address), three further genesis configurations, and histories with fees near 2^120, oracle: reward coin = (fee pool of seal(None) >> 16) + tips, fee pool decreases by exactly that part, tips restart at 0',
+    'exhaustive grid: fee multipliers {0,1,2,65535,65536,65537,10^6,2^40,2^64,2^90} x inputs {1,2,3} x outputs {0,1,2,3,255} x 7 extra covenants of weight 0..~10^8 x data length {0,1,100} x fee - minimum in {-1000,-2,-1,0,1,2,1000} (fee iterated to the fixed point fee = min(tx)), followed by padded-signature variants, 40 loop-shape covenants, one covenant per opcode (every exp k) and the two standard signature covenants with each operand replaced or followed by a heavy tail, oracle: accepted iff fee >= reference minimum, fee pool += minimum, tips += remainder; then breadth-first search over histories with over-paying transfers and seals with/without proposer actions at multipliers 0, 65536, 10^6 to depth 9/8/8 (thorough 11/10/10) (seal actions incl. a reward sent to the destruction address), three further genesis configurations, the two standard genesis configurations, and histories with fees near 2^120, oracle: reward coin = (fee pool of seal(None) >> 16) + tips, fee pool decreases by exactly that part, tips restart at 0',
     'Bounded exhaustive sweep and state-graph search through the real apply_tx / seal with exact arithmetic oracles from the statement.',
     'Trusted: reference covenant weight and stdcode length for the transaction weight; the grid fixtures fund coins with a faucet that pays its own minimum fee.',
     'DESIGN.md §4 C05'),
@@ -92,11 +92,11 @@ CHECKS.update({
     'Bounded exhaustive fault enumeration on the real entry points with panic capture (catch_unwind + backtrace frame), a watchdog for non-termination and child-process isolation for inputs that can kill the process. Right level: a crash needs one specific boundary value in one specific field of one kind, which the per-field boundary product enumerates.',
     'Trusted: the watchdog deadline (30 s / 60 s for calls that take microseconds) as the only time judgement; RLIMIT_AS and the 2 MiB thread stack as the validator environment. Field values between the boundary points and combinations of two hostile fields in one transaction are not covered. Every other check also wraps its real calls in catch_unwind and counts panics, but reports them only here.',
     'DESIGN.md §4 C09'),
- 'C13': e1('explicit-state breadth-first search to depth 28 (thorough 32) over histories that submit up to two stake transactions from a grid of documents ((e_start, e_post_end) around the current epoch, amount == / != first output, first output SYM / MEL, truncated / trailing-byte / empty document), try to spend every output of every stake transaction in the same batch (both orders), later in the block, in the next block and - after jumps to the last block of each epoch - in the first block of the next, through epoch end+1, plus testnet histories across heights 500000 and 900000 where the stake rules / the lock rule of the legacy networks come into force, first stakes around an epoch boundary, and a rebuild (from_block) of every sealed state whose block holds a Stake transaction; oracles: registered stake set == model (register only if consistent), spending the staked coin rejected while a registered, unexpired stake covers it and never rejected as locked otherwise, votes(e,k) and total_votes(e) == sums over the model, stakes_hash == root of the model stakes',
+ 'C13': e1('explicit-state breadth-first search to depth 28 (thorough 32) over histories that submit up to two stake transactions from a grid of documents ((e_start, e_post_end) around the current epoch, amount == / != first output, a zero amount, first output SYM / MEL, truncated / trailing-byte / empty document), try to spend every output of every stake transaction in the same batch (both orders), later in the block, in the next block and - after jumps to the last block of each epoch - in the first block of the next, through epoch end+1, plus testnet histories across heights 500000 and 900000 where the stake rules / the lock rule of the legacy networks come into force, first stakes around an epoch boundary, and a rebuild (from_block) of every sealed state whose block holds a Stake transaction; oracles: registered stake set == model (register only if consistent), spending the staked coin rejected while a registered, unexpired stake covers it and never rejected as locked otherwise, votes(e,k) and total_votes(e) == sums over the model, stakes_hash == root of the model stakes',
     'Bounded exhaustive exploration across epoch boundaries (reached by re-labelling sealed content with from_block) with lock, registration, voting-power and commitment oracles on every state.',
     'DESIGN.md §4 C13'),
  'C18': ('E3 with real proofs through the E1 lock-step oracle',
-    'exhaustive grid with real melpow proofs: coin ages {1,2,3,50} (thorough + {99,100,101}) x (difficulty, hash) in {1,2,4,8,16 legacy; 1,3,8 TIP-910} (thorough + 7 more) x ERG amounts {0, max-1, max, max+1, 2max+1, max split over two outputs} x corruptions {claimed difficulty +-1, trailing byte, truncated, empty data, empty / 39-byte / zero proof, every (or a spread of) 40-byte unit removed or bit-flipped, proof for another coin, proof seeded with another height header}, on Custom02 and Mainnet (age >= 100 rule; thorough + Testnet), the genesis coin (height 0) on chains of height 1..101, mints after an earlier mint raised the recorded speed, two mints in one batch in both orders, two sibling chains of one network holding the same coin under different headers; oracle: real accepts => the reference verdict (puzzle, verification under either hash, reward bound, age rule) accepts; dosc_speed == max(previous, demonstrated speeds); public calculate_reward / dosc_to_erg == reference transcription over a 3280-point grid; supplement (sampling, labelled): 4 threads asking for neighbouring fresh heights of the process-wide inflator table, every answer compared with the recurrence',
+    'exhaustive grid with real melpow proofs: coin ages {1,2,3,50} (thorough + {99,100,101}) x (difficulty, hash) in {1,2,4,8,16 legacy; 1,3,8 TIP-910} (thorough + 7 more) x ERG amounts {0, max-1, max, max+1, 2max+1, max split over two outputs} x corruptions {claimed difficulty +-1, trailing byte, truncated, empty data, empty / 39-byte / zero proof, every (or a spread of) 40-byte unit removed or bit-flipped, proof for another coin, proof seeded with another height header}, on Custom02 and Mainnet (age >= 100 rule; thorough + Testnet), the genesis coin (height 0) on chains of height 1..101, mints after an earlier mint raised the recorded speed, two mints in one batch in both orders, two sibling chains of one network holding the same coin under different headers, worlds re-labelled at heights 1040 .. 10^6 (inflator above 1); oracle: real accepts => the reference verdict (puzzle, verification under either hash, reward bound, age rule) accepts; dosc_speed == max(previous, demonstrated speeds); public calculate_reward / dosc_to_erg == reference transcription over a 3280-point grid; supplement (sampling, labelled): 4 threads asking for neighbouring fresh heights of the process-wide inflator table, every answer compared with the recurrence',
     'Bounded exhaustive enumeration through the real apply_tx_batch against a reference transcription of the reward formula and an independent evaluation of the proof with the melpow library.',
     'Trusted: melpow::Proof::generate/verify as the definition of valid sequential work; BigInt arithmetic. Difficulties above 20 are outside the bound (proof generation cost).',
     'DESIGN.md §4 C18'),
